@@ -214,3 +214,76 @@ Example C06_ex_untimed :
   timed_hist all_rep (qinit PFifo [mk_entry 1 4 KArray [0] true] [] [])
              [Pop 2; Pause None; Pop 2; Resume None; Pop 10] = false.
 Proof. vm_compute. reflexivity. Qed.
+
+(* ================================================================================================ *)
+(* The coverage-audit addition of EndToEnd/Spec.v: c06_runk annot multi, the harness encoding of the loop for any
+   kind of acquisition chunk (annot: PipelineData, multi: two channels); c06_run = c06_runk false false.  The
+   theorems above are stated for `run B k fs` with k universally quantified; these tie them to the encoding. *)
+From PV Require Import EndToEnd.ProofsXKind.
+
+Theorem C06_runk_plain : forall p es ch pm B n pre steps,
+  c06_runk false false p es ch pm B n pre steps = c06_run p es ch pm B n pre steps.
+Proof. exact c06_runk_plain. Qed.
+Print Assumptions C06_runk_plain.
+
+(* END TO END for every kind, in the terms of the encoding: on the schedules the property quantifies over, c06_runk a m
+   is [1; wf = 1; fits = 1; the played stream; the kept trials; the sends], where no send raises, every send is
+   answered, the delivered epochs are exactly one per kept trial whose window was acquired, in presentation order,
+   each the waveform followed by silence, and the sends are those of the plain 1-D run. *)
+Theorem C06_end_to_end_k : forall a m p es ch pm B n pre steps st fs,
+  let X := {| x_val := val64; x_K := zlen es; x_n := n; x_pre := pre |} in
+  let outs := run B (mkkind a m) fs in
+  let live := live_of (s_q st) in
+  wf_queue p es = true -> minlen es = true -> forallb (fun e => e_len e <=? n) es = true -> pre = 0 ->
+  wf_steps all_rep (cinit (qinit p es ch pm)) steps = true ->
+  run_steps all_rep X (cinit (qinit p es ch pm)) steps = Some (st, fs) ->
+  s_notes st = [] ->
+  poststim_fits es n (s_added st) live = true ->
+  c06_runk a m p es ch pm B n pre steps =
+    [1; 1; 1; zlen (s_P st)] ++ map val64 (s_P st) ++ [zlen live] ++ flat_map (fun kt => [fst kt; snd kt]) live
+    ++ [zlen outs] ++ flat_map enc_fout outs /\
+  length outs = length fs /\
+  Forall (fun o => is_err o = false) outs /\
+  delivered outs = map (epoch_item X es) (filter (complete n (s_acq st)) live) /\
+  outs = run B (mkkind false false) fs.
+Proof. exact end_to_end_k. Qed.
+Print Assumptions C06_end_to_end_k.
+
+(* At ANY moment of a well-formed schedule (notifications may still wait, poststim_fits not assumed), for every kind:
+   the whole encoded outcome equals that of the plain 1-D run, no send raises, every send is answered, and the
+   delivered epochs are the slices [t0, t0+n) of the played stream. *)
+Theorem C06_end_to_end_slices_k : forall a m p es ch pm B n pre steps st fs,
+  let X := {| x_val := val64; x_K := zlen es; x_n := n; x_pre := pre |} in
+  let outs := run B (mkkind a m) fs in
+  wf_queue p es = true -> minlen es = true -> forallb (fun e => e_len e <=? n) es = true -> pre = 0 ->
+  wf_steps all_rep (cinit (qinit p es ch pm)) steps = true ->
+  run_steps all_rep X (cinit (qinit p es ch pm)) steps = Some (st, fs) ->
+  c06_runk a m p es ch pm B n pre steps = c06_run p es ch pm B n pre steps /\
+  length outs = length fs /\
+  Forall (fun o => is_err o = false) outs /\
+  delivered outs =
+    map (s_item (map val64 (firstn (Z.to_nat (s_acq st)) (s_P st))))
+        (map (req_of (zlen es) n pre) (filter (complete n (s_acq st)) (s_live st))).
+Proof. exact end_to_end_slices_k. Qed.
+Print Assumptions C06_end_to_end_slices_k.
+
+(* On EVERY schedule (well-formed or not, any pre-stimulus time, the queue may raise): the two flags do not change the
+   encoded outcome as soon as the epoch has at least one sample. *)
+Theorem C06_kind_irrelevant_k : forall a m p es ch pm B n pre steps, 1 <= n ->
+  c06_runk a m p es ch pm B n pre steps = c06_run p es ch pm B n pre steps.
+Proof. exact runk_kind_irrelevant. Qed.
+Print Assumptions C06_kind_irrelevant_k.
+
+(* 1 <= n is the exact side condition: with n = 0 (outside the property: stimuli are non-empty and not longer than
+   the epoch) and a pre-stimulus time, a zero-length epoch and a "missed" stub reach the target in one send;
+   PipelineData chunks stack them, plain arrays raise. *)
+Theorem C06_kind_irrelevant_k_refuted : exists a m p es ch pm B n pre steps,
+  n = 0 /\ c06_runk a m p es ch pm B n pre steps <> c06_run p es ch pm B n pre steps.
+Proof. exact runk_kind_irrelevant_refuted. Qed.
+Print Assumptions C06_kind_irrelevant_k_refuted.
+
+(* The hypotheses are satisfiable: the schedule ex_steps above with two-channel PipelineData chunks. *)
+Example C06_ex_k :
+  firstn 3 (c06_runk true true PFifo ex_es [] [] 0 5 0 ex_steps) = [1; 1; 1] /\
+  c06_runk true true PFifo ex_es [] [] 0 5 0 ex_steps = c06_run PFifo ex_es [] [] 0 5 0 ex_steps.
+Proof. exact end_to_end_k_ex. Qed.
